@@ -1,7 +1,7 @@
 """C13 - hub-sync lands the local tree on the hub and skips what is already there."""
 import os
 import vlib
-from . import common
+from . import common, dirclash
 
 TB = ["modelled, not verified: the hub as the CAS-map specification (justified for every interleaving by C03's theorems and tie); discover_local_fingerprints = the local tree in PathBuf order; process spawning, pipes and the ssh transport (replaced by tools/ssh-standin/ssh: no sshd in the sandbox); BLAKE3 (quantified; no collision between the hub's and the local file of one path)",
       "hypothesis made explicit by the proof: no local file under the hub's hidden control directory `.copia/` (such a file is re-sent and conflicts on every later run); no file/directory clash between local and hub paths",
@@ -14,7 +14,7 @@ def run(prop, tier, seed, replay):
     extra = ["--copia", vlib.COPIA, "--shim", vlib.SHIM, "--standin", os.path.join(vlib.VERIF, "tools", "ssh-standin")]
     res = common.correspondence(v, st, prop, "c13", "csync", tier, seed, replay, profiles=("release",), extra=extra,
                                 model_desc="Model/HubClient.v hub_sync_from", impl_desc="real `copia hub-sync` runs")
-    common.verdict(v, st, prop, res)
+    common.verdict(v, st, prop, res, dirclash.known_match)
     common.proof_coverage(v, st, prop, TB)
     v.coverage.update(dict(
         evaluations=res["evals"] or res["stats"].get("release.runs", 0), distinct_nontrivial=res["distinct"],
